@@ -2309,10 +2309,17 @@ class RedunBackendDb(RedunBackend):
                 )
             )
 
-            # Restrict to same context if context is present.
+            # Restrict to same context. A call without context only matches CallNodes
+            # that were recorded without context.
             if context_hash:
                 call_nodes = call_nodes.join(Tag, Tag.entity_id == CallNode.call_hash).filter(
                     Tag.key == CONTEXT_KEY, Tag.value == sa_cast(context_hash, JSON)
+                )
+            else:
+                call_nodes = call_nodes.filter(
+                    ~exists().where(
+                        and_(Tag.entity_id == CallNode.call_hash, Tag.key == CONTEXT_KEY)
+                    )
                 )
 
             call_node = call_nodes.order_by(Job.start_time.desc()).first()
@@ -2453,6 +2460,11 @@ class RedunBackendDb(RedunBackend):
         if context_hash:
             call_nodes = call_nodes.join(Tag, Tag.entity_id == CallNode.call_hash).filter(
                 Tag.key == CONTEXT_KEY, Tag.value == sa_cast(context_hash, JSON)
+            )
+        else:
+            # A call without context only matches CallNodes recorded without context.
+            call_nodes = call_nodes.filter(
+                ~exists().where(and_(Tag.entity_id == CallNode.call_hash, Tag.key == CONTEXT_KEY))
             )
 
         # Intersect call_node task_hashes with current task hashes.
